@@ -380,6 +380,13 @@ def _r19c(chk, repo) -> None:
 from ..selftest import Variant  # noqa: E402
 
 VARIANTS = [
+    # behaviour-preserving refactors: must stay quiet
+    Variant(
+        "quiet-stdin-fix-counts-after-discard-renamed", CLI,
+        "    if result.num_violations(types=SQLLintError, fixable=True) > 0:\n        stdout = result.paths[0].files[0].fix_string()[0]\n",
+        "    fixable_left = result.num_violations(types=SQLLintError, fixable=True)\n    if fixable_left > 0:\n        stdout = result.paths[0].files[0].fix_string()[0]\n",
+        "QUIET", None, "fixable count (read after the discard step) held in a local",
+    ),
     Variant("lint_string-pack-from-pre-inline-config", LINTER,
             "        rule_pack = self.get_rulepack(config=parsed.config)\n        # Lint the file and return the LintedFile",
             "        rule_pack = self.get_rulepack(config=config)\n        # Lint the file and return the LintedFile", "R19a", "lint_string", "the original defect F5"),
